@@ -283,7 +283,17 @@ def tier_counts(tier, quick, thorough):
     return thorough if tier == "thorough" else quick
 
 
+_SPEC_CACHE = {}
+
+
 def py_spec(code, inp, bits, cap=400000):
+    key = (code, bytes(inp), bits, cap)
+    if key not in _SPEC_CACHE:
+        _SPEC_CACHE[key] = _py_spec(code, inp, bits, cap)
+    return _SPEC_CACHE[key]
+
+
+def _py_spec(code, inp, bits, cap):
     """Second, independent canonical interpreter (dict tape). Returns event list or None if cap hit."""
     mask = (1 << bits) - 1
     stack, match = [], {}
@@ -327,6 +337,58 @@ def py_spec(code, inp, bits, cap=400000):
                 pc = match[pc]
         pc += 1
     return ev
+
+
+_PREFIX_CACHE = {}
+
+
+def py_spec_prefix(code, inp, bits, cap=20000):
+    key = (code, bytes(inp), bits, cap)
+    if key not in _PREFIX_CACHE:
+        _PREFIX_CACHE[key] = _py_spec_prefix(code, inp, bits, cap)
+    return _PREFIX_CACHE[key]
+
+
+def _py_spec_prefix(code, inp, bits, cap):
+    """Canonical events of the first `cap` steps (for diverging programs): (events, halted)."""
+    mask = (1 << bits) - 1
+    stack, match = [], {}
+    for i, c in enumerate(code):
+        if c == '[':
+            stack.append(i)
+        elif c == ']':
+            j = stack.pop()
+            match[i] = j
+            match[j] = i
+    tape, p, pc, ip, ev, steps = {}, 0, 0, 0, [], 0
+    n = len(code)
+    while pc < n and steps < cap:
+        steps += 1
+        c = code[pc]
+        if c == '+':
+            tape[p] = (tape.get(p, 0) + 1) & mask
+        elif c == '-':
+            tape[p] = (tape.get(p, 0) - 1) & mask
+        elif c == '>':
+            p += 1
+        elif c == '<':
+            p -= 1
+        elif c == '.':
+            ev.append(tape.get(p, 0) & 0xff)
+        elif c == ',':
+            if ip < len(inp):
+                tape[p] = inp[ip]
+                ip += 1
+            else:
+                tape[p] = 0
+        elif c == '[':
+            if tape.get(p, 0) == 0:
+                pc = match[pc]
+        elif c == ']':
+            if tape.get(p, 0) != 0:
+                pc = match[pc]
+        pc += 1
+    return bytes(ev), pc >= n
 
 
 def cross_check_oracle(binary, prop, seed, n):
@@ -556,11 +618,19 @@ def check_c16(tier, seed):
         if use_strace:
             trace = inp + ".strace"
             cmd = ["strace", "-f", "-e", "trace=mmap", "-o", trace] + cmd
+        # own process group: on a timeout the whole group is killed (the binary runs under
+        # setarch / strace wrappers; killing only the wrapper would leave hpbf spinning)
+        pr = subprocess.Popen(cmd, stdin=fd, stdout=subprocess.PIPE, stderr=subprocess.PIPE, start_new_session=True)
         try:
-            r = subprocess.run(cmd, stdin=fd, capture_output=True, timeout=60)
+            out, err = pr.communicate(timeout=60)
             off = os.lseek(fd, 0, os.SEEK_CUR)
-            rc, out, err = r.returncode, r.stdout, r.stderr
+            rc = pr.returncode
         except subprocess.TimeoutExpired:
+            try:
+                os.killpg(pr.pid, 9)
+            except ProcessLookupError:
+                pass
+            pr.communicate()
             rc, out, err, off = None, b"", b"", -1
         os.close(fd)
         tr = ""
@@ -603,7 +673,7 @@ def check_c16(tier, seed):
     cases = []
     for i in range(n):
         code, stdin = rng.choice(C16_PROGRAMS)
-        kind = rng.choices(["run", "print", "unbalanced", "missing_file", "limit", "static", "level_witness", "width_witness"], weights=[40, 12, 10, 6, 10, 8, 7, 7])[0]
+        kind = rng.choices(["run", "print", "unbalanced", "missing_file", "limit", "static", "level_witness", "width_witness", "limit_divergent"], weights=[38, 12, 10, 6, 10, 8, 7, 7, 8])[0]
         flags = []
         for _ in range(rng.randint(0, 3)):
             flags.append(rng.choice(["-i8", "-i16", "-i32", "-i64"]))
@@ -624,6 +694,15 @@ def check_c16(tier, seed):
             flags = [f for f in flags if f not in BACKENDS and not f.startswith("-O")] + ["--print-ir", "-O1"]
         if kind == "limit":
             flags += ["--limit", str(rng.choice([0, 1, 3, 10, 100, 10 ** 6, 10 ** 12]))]
+            if rng.random() < 0.3:
+                # both mode flags: the limit must still be honoured
+                flags.insert(rng.choice([k for k in range(len(flags) + 1) if k == 0 or flags[k - 1] != "--limit"]), "--static")
+        if kind == "limit_divergent":
+            # prints, then never ends canonically: only the limit makes it return
+            code, stdin = rng.choice([("++++++++[>++++++++<-]>+.[]", b""), ("+[.]", b""), (",[.[-]+]", b"A"), ("+++[>+.<]", b""), ("+[>+.<[-]+]", b"")])
+            flags += ["--limit", str(rng.choice([10, 1000, 100000]))]
+            if rng.random() < 0.4:
+                flags.insert(rng.choice([k for k in range(len(flags) + 1) if k == 0 or flags[k - 1] != "--limit"]), "--static")
         if kind == "static":
             flags += ["--static"]
         if code in ("--[>+<--]>.", "+++++[>+<---]>.", "-[>+<-----]>.") and kind not in ("width_witness", "level_witness", "print"):
@@ -701,6 +780,8 @@ def check_c16(tier, seed):
         why = None
         info = {"strace": use_strace}
         if rc is None:
+            if limit is not None and limit <= 10 ** 6:
+                return (case, argv, "violated", f"--limit {limit} given (flags {flags}) but the process did not return within 60 s", info)
             return (case, argv, "inconclusive", "timeout (60 s)", info)
         if kind == "missing_file":
             if rc != 1 or not err or out:
@@ -721,6 +802,12 @@ def check_c16(tier, seed):
                 why = f"width witness printed the IR of another width than {width}"
             elif kind == "level_witness" and lvl_prog and out != lvl_prog[1][min(level, 3)]:
                 why = f"level witness printed the IR of another level than min({level},3)"
+        elif kind == "limit_divergent":
+            pref, halted = py_spec_prefix(code, stdin, width)
+            if rc != 0:
+                why = f"--limit {limit} on a diverging program: exit status {rc}"
+            elif pref[:len(out)] != out[:len(pref)]:
+                why = f"--limit {limit} on a diverging program: stdout {out[:20]!r} is not a prefix of the canonical output {pref[:20]!r}"
         else:
             want = py_spec(code, stdin, width, cap=3000000)
             if want is None:
@@ -747,7 +834,7 @@ def check_c16(tier, seed):
                 info.update({"jit_seen": jit_seen, "big": big})
                 if jit_seen != (backend == "basejit"):
                     why = f"back end selection: anonymous PROT_EXEC mapping {'seen' if jit_seen else 'not seen'} but the flags select {backend}"
-                elif big != static:
+                elif limit is None and big != static:
                     why = f"static mode: a >= 512 MiB anonymous mapping was {'seen' if big else 'not seen'} but --static is {'on' if static else 'off'}"
         return (case, argv, "violated" if why else "held", why, info)
 
